@@ -36,6 +36,10 @@ type ListCase struct {
 	Batches []int      // sizes in which the underlying iterator hands entries out (cycled); level 2: first value is the mock's batch size
 	End     string     // how the iterator signals the end: "nil", "empty", "eof"
 	Reads   []ReadSpec // cycled until the listing is exhausted
+	// ViaCreate (level 2): the directory that is read is a new one, created with DMDIR through a
+	// fid on the populated directory and read through that same fid (create leaves it open):
+	// its listing is empty, whatever its parent holds
+	ViaCreate bool `json:",omitempty"`
 }
 
 func (c *ListCase) dirs() []refwire.D {
@@ -69,6 +73,9 @@ func GenListCase(level int) func(t *rapid.T) ListCase {
 		}
 		c.Batches = rapid.SliceOfN(rapid.IntRange(1, 9), 1, 4).Draw(t, "batches")
 		c.End = rapid.SampledFrom([]string{"nil", "empty", "eof"}).Draw(t, "end")
+		if level == 2 && rapid.IntRange(0, 7).Draw(t, "viacreate") == 0 {
+			c.ViaCreate = true
+		}
 		c.Reads = rapid.SliceOfN(rapid.Custom(func(t *rapid.T) ReadSpec {
 			r := ReadSpec{Extra: rapid.OneOf(rapid.SampledFrom([]int{0, 0, 1, 2}), rapid.IntRange(0, 120), rapid.IntRange(0, 3000), rapid.Just(70000)).Draw(t, "extra")}
 			if rapid.IntRange(0, 7).Draw(t, "wrongp") == 0 {
@@ -164,7 +171,12 @@ func RunList(c ListCase) harn.Result {
 		if _, err := sess.Walk(ctx, 1, 2, "dir"); err != nil {
 			return harn.Fail("HARNESS walk: %v", err)
 		}
-		if _, _, err := sess.Open(ctx, 2, p9p.OREAD); err != nil {
+		if c.ViaCreate {
+			if _, _, err := sess.Create(ctx, 2, "zz-created", p9p.DMDIR|0755, p9p.OREAD); err != nil {
+				return harn.Fail("creating a directory failed: %v", err)
+			}
+			encs = nil // a new directory is empty; maxEnc stays: the read sizes are those of the parent's listing
+		} else if _, _, err := sess.Open(ctx, 2, p9p.OREAD); err != nil {
 			return harn.Fail("opening a directory fid failed: %v", err)
 		}
 		rd = func(count int, offset int64) ([]byte, error) {
